@@ -264,8 +264,15 @@ def check_once(eng, run):
         an = Card(eng, {"generate"}, {"send_all_from_iterable"})
         out = Interp(an, fn).run()
         bad = [f for f in out.ret if f != (1, 1)] or an.loop_sites
-        nested = any(isinstance(n, ast.Call) and (n.func.attr if isinstance(n.func, ast.Attribute) else "") == "send_all_from_iterable" and n.args
-                     and isinstance(n.args[0], ast.Call) and (n.args[0].func.attr if isinstance(n.args[0].func, ast.Attribute) else "") == "generate" for n in own_nodes(fn.node))
+        from sa.analyses.buffers import through_local
+        # the generator object reaches the transport call itself - written inline or bound to a single-use local first
+        nested = False
+        for n in own_nodes(fn.node):
+            if isinstance(n, ast.Call) and (n.func.attr if isinstance(n.func, ast.Attribute) else "") == "send_all_from_iterable" and n.args:
+                a0 = through_local(fn, n.args[0])
+                if isinstance(a0, ast.Call) and (a0.func.attr if isinstance(a0.func, ast.Attribute) else "") == "generate":
+                    uses = sum(1 for x in own_nodes(fn.node) if isinstance(n.args[0], ast.Name) and isinstance(x, ast.Name) and x.id == n.args[0].id and isinstance(x.ctx, ast.Load))
+                    nested = not isinstance(n.args[0], ast.Name) or uses == 1
         if bad or not nested:
             run.finding("C04.once", fn, fn.node, "the packet's chunks are not handed to exactly one transport call (producer.generate(packet) passed once to send_all_from_iterable): the packet would be sent twice, partially or not at all")
         run.ob("C04.once", fn.module.name.split(".")[-3] + "." + fn.short, not bad and nested)
